@@ -1,7 +1,171 @@
+(** C15  Rolling log files keep the most recent messages, complete and in order.
+    Only statements; the proofs are in Log/RollProofs.v.
+
+    [c] is the policy configuration (Counted or MaxSize, limit, number of
+    generations), a history is [Restart :: evs]: the start of the handler followed by
+    any sequence of messages and restarts.  [final c init_state h] is the state after
+    the history ([None] if an operation throws), [sfs st j] the content of the
+    generation file number j (0 = the file being written), [retained G st] the
+    generation files read from the oldest to the newest, [enc ms] the messages [ms]
+    as they are written (text, line terminator).  [valid c]: limit >= 1 and at least
+    one generation. *)
 From Coq Require Import List Arith.
 Import ListNotations.
-Require Import Celma.Common.Res Celma.Log.RollModel.
+Require Import Celma.Common.Res Celma.Log.RollModel Celma.Log.RollProofs.
 
-Theorem C15_stub : forall fs, file_size (fs_open true fs) = 0.
-Proof. intros fs. unfold file_size, fs_open. destruct (fs 0); reflexivity. Qed.
-Print Assumptions C15_stub.
+(** No history makes the policies throw. *)
+Theorem C15_roll_no_error :
+  forall c evs, valid c -> exists st, final c init_state (Restart :: evs) = Some st.
+Proof. exact history_final. Qed.
+Print Assumptions C15_roll_no_error.
+
+(** For every limit, generation count and history: the generations read from oldest
+    to newest are the encoding of a suffix of the messages written (no loss inside,
+    no duplication, order kept, whole messages); as long as the oldest generation
+    slot is unused nothing at all has been lost; a message just written is the last
+    one retained. *)
+Theorem C15_roll_suffix :
+  forall c evs st,
+    valid c -> final c init_state (Restart :: evs) = Some st ->
+    exists kept, is_suffix kept (writes evs) /\ retained (cgens c) st = enc kept /\
+                 (sfs st (cgens c - 1) = None -> kept = writes evs) /\
+                 (forall evs' t, evs = evs' ++ [Write t] -> exists k', kept = k' ++ [t]).
+Proof. exact roll_suffix. Qed.
+Print Assumptions C15_roll_suffix.
+
+(** Count-limited files, at least two generations, no restart: at least the last
+    min( number of messages, limit) messages are retained.  (With restarts this does
+    not hold - see C15_counted_restart_refuted.) *)
+Theorem C15_roll_retains_partial :
+  forall c ts st,
+    valid c -> ckind c = KCounted -> 2 <= cgens c ->
+    final c init_state (Restart :: map Write ts) = Some st ->
+    exists kept, is_suffix kept ts /\ retained (cgens c) st = enc kept /\
+                 Nat.min (length ts) (climit c) <= length kept.
+Proof. exact counted_retains. Qed.
+Print Assumptions C15_roll_retains_partial.
+
+(** Every generation file holds whole messages only: a contiguous part of the history. *)
+Theorem C15_roll_no_truncation :
+  forall c evs st j x,
+    valid c -> final c init_state (Restart :: evs) = Some st -> sfs st j = Some x ->
+    exists ms, x = enc ms /\ is_infix ms (writes evs).
+Proof. exact roll_no_truncation. Qed.
+Print Assumptions C15_roll_no_truncation.
+
+(** No generation exceeds its limit - entries, resp. bytes including the line
+    terminators - provided that (size limit) every message with its terminator fits
+    into an empty generation; and there is no file beyond the configured generations. *)
+Theorem C15_roll_limit :
+  forall c evs st j x,
+    valid c -> Forall (fits c) evs ->
+    final c init_state (Restart :: evs) = Some st -> sfs st j = Some x ->
+    exists ms, x = enc ms /\
+      match ckind c with
+      | KCounted => length ms <= climit c
+      | KMaxSize => length x <= climit c
+      end.
+Proof. exact roll_limit. Qed.
+Print Assumptions C15_roll_limit.
+
+Theorem C15_roll_generations :
+  forall c evs st j,
+    valid c -> final c init_state (Restart :: evs) = Some st -> cgens c <= j -> sfs st j = None.
+Proof. exact roll_generations. Qed.
+Print Assumptions C15_roll_generations.
+
+(** A new generation is started by a message only when the message would exceed the
+    limit of the current one (entries + 1, resp. bytes + text + terminator) ... *)
+Theorem C15_roll_only_when_needed_write :
+  forall c evs st t st',
+    valid c -> final c init_state (Restart :: evs) = Some st ->
+    step c st (Write t) = Ok (st', true) ->
+    exists ms, sfs st 0 = Some (enc ms) /\
+      match ckind c with
+      | KCounted => climit c < length ms + 1
+      | KMaxSize => climit c < length (enc ms) + length t + 1
+      end.
+Proof. exact write_rolls_only_when_needed. Qed.
+Print Assumptions C15_roll_only_when_needed_write.
+
+(** ... and by a restart of a size-limited log only when the current generation is
+    full (no message, not even an empty one, fits any more).
+    Full statement (not provable for the code as it is): the same for count-limited
+    logs, i.e. "f = true -> climit c <= length ms".  What holds there is that a
+    restart starts a new generation exactly when the current file is not empty. *)
+Theorem C15_roll_only_when_needed_restart_partial :
+  forall c evs st st' f,
+    valid c -> final c init_state (Restart :: evs) = Some st ->
+    step c st Restart = Ok (st', f) ->
+    exists ms, sfs st 0 = Some (enc ms) /\
+      match ckind c with
+      | KMaxSize => f = true <-> climit c <= length (enc ms)
+      | KCounted => f = true <-> ms <> []
+      end.
+Proof. exact restart_rolls. Qed.
+Print Assumptions C15_roll_only_when_needed_restart_partial.
+
+(** The excluded region is a genuine violation (known finding
+    restart-starts-new-generation): count limit 3, three generations, one message,
+    restart - a new generation is started although two more entries fit; with two
+    generations and two restarts the first message is lost although only two
+    messages were ever written. *)
+Theorem C15_counted_restart_refuted :
+  exists c evs st st',
+    valid c /\ ckind c = KCounted /\ final c init_state (Restart :: evs) = Some st /\
+    step c st Restart = Ok (st', true) /\
+    exists ms, sfs st 0 = Some (enc ms) /\ length ms + 1 <= climit c.
+Proof.
+  exists {| ckind := KCounted; climit := 3; cgens := 3 |}, [Write [97]].
+  eexists. eexists. split; [split; cbn; auto with arith|]. split; [reflexivity|].
+  split; [vm_compute; reflexivity|]. split; [vm_compute; reflexivity|].
+  exists [[97]]. split; [reflexivity|]. cbn. auto with arith.
+Qed.
+Print Assumptions C15_counted_restart_refuted.
+
+Example C15_counted_restart_loses_message :
+  let c := {| ckind := KCounted; climit := 3; cgens := 2 |} in
+  option_map (snapshot 2) (final c init_state [Restart; Write [97]; Restart; Write [98]; Restart])
+  = Some [Some []; Some (enc [[98]])].
+Proof. vm_compute. reflexivity. Qed.
+
+(* ------------------------------------------------------------------ *)
+(** The pinned tree violated the property in three more places; witnesses on the
+    model of the pinned code (corpus cases of the generator, confirmed on the real
+    code through the harness). *)
+
+(** 1. open( out|ate) truncates: the message written before the restart is gone *)
+Example C15_pinned_refuted_restart_truncates :
+  let c := {| ckind := KCounted; climit := 2; cgens := 3 |} in
+  option_map (snapshot 3) (final_pinned c init_state [Restart; Write [97]; Restart])
+    = Some [Some []; None; None] /\
+  option_map (snapshot 3) (final c init_state [Restart; Write [97]; Restart])
+    = Some [Some []; Some (enc [[97]]); None].
+Proof. split; vm_compute; reflexivity. Qed.
+
+(** 2. Counted never resets its counter: after the first roll-over one message per
+    generation, the oldest messages are lost although they would fit *)
+Example C15_pinned_refuted_counter_not_reset :
+  let c := {| ckind := KCounted; climit := 2; cgens := 2 |} in
+  let h := [Restart; Write [97]; Write [98]; Write [99]; Write [100]] in
+  option_map (snapshot 2) (final_pinned c init_state h) = Some [Some (enc [[100]]); Some (enc [[99]])] /\
+  option_map (snapshot 2) (final c init_state h) = Some [Some (enc [[99]; [100]]); Some (enc [[97]; [98]])].
+Proof. split; vm_compute; reflexivity. Qed.
+
+(** 3. MaxSize does not count the line terminator: 8 bytes in a generation limited to 6 *)
+Example C15_pinned_refuted_newline_not_counted :
+  let c := {| ckind := KMaxSize; climit := 6; cgens := 2 |} in
+  let h := [Restart; Write [97; 97]; Write [98; 98]; Write [99]] in
+  option_map (snapshot 2) (final_pinned c init_state h) = Some [Some (enc [[97; 97]; [98; 98]; [99]]); None] /\
+  option_map (snapshot 2) (final c init_state h) = Some [Some (enc [[99]]); Some (enc [[97; 97]; [98; 98]])].
+Proof. split; vm_compute; reflexivity. Qed.
+
+(** Non-vacuity: a history with roll-overs and a restart, three generations. *)
+Example C15_nonvacuous :
+  let c := {| ckind := KMaxSize; climit := 6; cgens := 3 |} in
+  let h := [Restart; Write [97; 97]; Write [98; 98]; Write [99]; Restart; Write [100; 100; 100];
+            Write [101; 101]; Write [102; 102]; Write [103; 103; 103; 103]] in
+  option_map (snapshot 4) (final c init_state h)
+  = Some [Some (enc [[103; 103; 103; 103]]); Some (enc [[101; 101]; [102; 102]]);
+          Some (enc [[99]; [100; 100; 100]]); None].
+Proof. vm_compute. reflexivity. Qed.
